@@ -77,10 +77,10 @@ for _spec, _groups in C10_SPECS.items():
     for _g in GROUPS:
         if not applicable(_spec, _g):
             continue
-        ob('dataclass/%s/%s' % (_spec, _g), marks=['accept', 'reject'], budget=(100, 400), per_path=(15, 30),
+        ob('dataclass/%s/%s' % (_spec, _g), marks=['accept', 'reject'], budget=(100, 400), per_path=(15, 30), exhaustive=(True, False),
            thorough_only=_g not in _groups,
            bounds=bounds_text(_spec, _g, 'Schema') + '; lookup strategy solver-picked in the alias group; the same declaration with and without collect_errors (max_errors '
-                  'picked from none,1,2,3)', out='as C05')((lambda s, g: lambda V: _dc(V, s, g))(_spec, _g))
+                  'picked from none,1,2,3)', out='as C05; the thorough key vocabulary (7 / 8 keys) is explored within the budget (solver-driven, every path replayed), not exhausted: the exhaustive claim is the quick vocabulary')((lambda s, g: lambda V: _dc(V, s, g))(_spec, _g))
 
 
 # ------------------------------------------------------------------ containers
